@@ -68,11 +68,12 @@ def tolv(*mags):
     return 8 * S.EPS * m
 
 
-def monitor(op_line, out_line, st):
+def monitor(op_line, out_line, st, parse=None):
     if out_line.startswith('exception') or out_line in ('bad-op', 'bad-direction'):
         return f'harness: {out_line[:100]}'
     op = S.Op.parse(op_line)
-    r = S.parse_out(out_line)
+    r = (parse or S.parse_out)(out_line)
+    r.setdefault('events', [sec.split()[1:] for sec in out_line.split(' ; ') if sec.strip().startswith('EV ')])
     stx = r['stats']
     if stx['status'] == 'exception':
         return None
@@ -149,9 +150,14 @@ def main(argv):
     import multiloop
 
     def mon(solver, o, h, st):
-        o2, h2 = solver.c03_view(o, h)
-        if h2.startswith('S exception'):
+        if h.startswith('S exception'):
             return None
+        if solver.name == 'ocp':
+            import c13                      # its monitor includes the C03 relations for every exit status
+            return c13.monitor(o, h, st)
+        if solver.name == 'fista':
+            return monitor(o, h, st, parse=solver.mod.parse_out)
+        o2, h2 = solver.c03_view(o, h)
         return monitor(o2, h2, st)
 
     return multiloop.loop_check(
